@@ -67,7 +67,7 @@ def run(ctx):
     #    state of the runs that also export the behaviours for the driver
     inv = "CodecMatchesSpec CodecAdditive KeyCodec RowHostsAdmissible RowSane"
     b1 = ctx.tlc("RowTransferMC", "RowTransfer_beh3.cfg" if th else "RowTransfer_beh.cfg", timeout=3000 if th else 900,
-                 coverage=th, name="MC + behaviour export (<=%d events, 30 shapes)" % (3 if th else 2),
+                 name="MC + behaviour export (<=%d events, 30 shapes)" % (3 if th else 2),
                  constants=dict(consts, MaxEv=3 if th else 2, shapes=30, keys=1, invariants=inv))
     ctx.require_model_ok(b1, "RowTransfer invariants")
     tab = tables(ctx, b1)
@@ -76,6 +76,12 @@ def run(ctx):
     ctx.require_model_ok(b2, "RowTransfer invariants (keys)")
     ctx.ev.set("exhaustive", True)
     if th:
+        # action coverage (vacuity) on the small alphabet x all key layouts
+        cov = ctx.tlc("RowTransferMC", "RowTransfer_mc.cfg", timeout=900, coverage=True, name="MC with coverage (16 shapes, 6 keys)",
+                      constants=dict(consts, MaxEv=2, shapes=16, keys=6, invariants=inv))
+        ctx.require_model_ok(cov, "RowTransfer invariants (coverage run)")
+        if cov.zero_cov:
+            raise Infra("actions never taken in RowTransfer: %s" % cov.zero_cov)
         # non-vacuity: the invariant must fire on the encoder as it was before the repairs
         for cfg, what in (("RowTransfer_orig_sum.cfg", "sum omitted when min = max"),
                           ("RowTransfer_orig_host.cfg", "empty host restored from the max host")):
@@ -89,7 +95,7 @@ def run(ctx):
         # the same behaviours (sample factor 1) through a real agent.Shard and the real sampleBucket
         ab = [b for b in b1.behaviours + b2.behaviours if b[-1].get("sf") == 1]
         random.Random(ctx.seed).shuffle(ab)
-        ab = ab[: (30000 if th else 3000)]
+        ab = ab[: (10000 if th else 3000)]
         res, out, rc = ctx.go_test("internal/agent", "TestVerifC02Agent", inp=[[tab]] + ab,
                                    env={"VERIF_DEN": 6, "VERIF_BUCKET": 1700000000}, timeout=1500)
         res = ctx.need_result(res, out, rc, "TestVerifC02Agent")
